@@ -165,6 +165,15 @@ func VerifH_c17_full_iteration() {
 	for i := 0; i < initial; i++ {
 		always[i], ever[i] = true, true
 	}
+	// a key whose deadline has passed is absent for the whole iteration, with
+	// or without filters; filters only filter (all names match n*, all keys are strings)
+	filter := vChoice("filter", 3) // 0 none, 1 MATCH n*, 2 TYPE string (SCAN only)
+	if !useSet {
+		vSetNow(vT0, 0)
+		vCmd(cs, "SET", "ngone", "1")
+		vCmd(cs, "EXPIRE", "ngone", "10")
+		vSetNow(vT0+100, 0)
+	}
 	count := vItoa(1 + vChoice("count", 3))
 	mutateAt := vChoice("mutate-at", 4) // after this many calls
 	mutation := vChoice("mutation", 4)  // 0 none, 1 grow (add up to the pool), 2 shrink (delete most), 3 delete everything
@@ -194,9 +203,16 @@ func VerifH_c17_full_iteration() {
 			}
 		}
 		var r respValue
-		if useSet {
+		switch {
+		case useSet && filter == 1:
+			r = vCmd(cs, "SSCAN", "s", cursor, "MATCH", "n*", "COUNT", count)
+		case useSet:
 			r = vCmd(cs, "SSCAN", "s", cursor, "COUNT", count)
-		} else {
+		case filter == 1:
+			r = vCmd(cs, "SCAN", cursor, "MATCH", "n*", "COUNT", count)
+		case filter == 2:
+			r = vCmd(cs, "SCAN", cursor, "COUNT", count, "TYPE", "string")
+		default:
 			r = vCmd(cs, "SCAN", cursor, "COUNT", count)
 		}
 		calls++
@@ -217,6 +233,7 @@ func VerifH_c17_full_iteration() {
 					vAssert("scan-returns-only-keys-that-existed", ever[i])
 				}
 			}
+			vAssert("scan-never-returns-an-expired-key", s != "ngone")
 			vAssert("scan-returns-known-names", known)
 		}
 		if cursor == "0" {
